@@ -240,14 +240,62 @@ Definition c09_holds (c : c09_case) (o : V) : bool :=
   | _ => false                       (* inside the domain an exception is not a legal outcome *)
   end.
 
-(* known-finding region 1 (F-C09-merge-3way): mergeRanks with two or more ranks below the
-   merged rank.  When three or more fibers collide there, _mergeToFibertree's union hands the
-   recursion placeholder Fiber() operands that do not know the leaf default (None), and the
-   default merge_fn raises TypeError.  The region over-approximates (it does not count the
-   colliding fibers); it only matters for cases on which the oracle is false. *)
+(* known-finding region 1 (F-C09-merge-3way): mergeRanks where _mergeToFibertree merges three or
+   more colliding payload fibers that have at least two ranks below them and, at some coordinate
+   of the (nested, left-associated) union, the first two operands are both absent: the
+   placeholder operands the union then creates come from the default of a lazy fiber and do not
+   know their own default (None), and one level further down the default merge_fn adds None
+   (TypeError).  [bad_tf] follows _mergeToFibertree's recursion ([rb] = ranks below the payloads),
+   [bad_helper] follows _mergeRanksHelper's, and the region looks at every fiber the Below
+   descent visits.  The region only matters for cases on which the oracle is false. *)
+Definition is_none {A} (o : option A) : bool := match o with None => true | Some _ => false end.
+
+Fixpoint bad_tf (fuel rb : nat) (d : Z) (ps : list ct) : bool :=
+  match fuel with
+  | O => false
+  | S fuel' =>
+    Nat.leb 2 rb && Nat.leb 3 (length ps) &&
+    (let fs := map sub ps in
+     let cs := union_coords d fs in
+     let pick c f := match clookup c (cpresent d f) with Some p => p | None => CN [] end in
+     existsb (fun c => forallb (fun f => is_none (clookup c (cpresent d f))) (firstn 2 fs)) cs
+     || existsb (fun c => bad_tf fuel' (rb - 1) d (map (pick c) fs)) cs)
+  end.
+
+Fixpoint bad_helper (levels : nat) (style : Z) (fuel rb : nat) (shapes : list Z) (d : Z) (es : cfib) : bool :=
+  match levels with
+  | O => false
+  | S l' =>
+    (match l' with
+     | O => false
+     | S _ => existsb (fun cp => bad_helper l' style fuel rb (tl shapes) d (sub (snd cp))) es
+     end)
+    ||
+    (let cur :=
+       match l' with
+       | O => Some es
+       | S _ => all_some (map (fun cp =>
+                  match snd cp with
+                  | CN s => option_map (fun r => (fst cp, CN r))
+                              (merge_helper l' style false fuel (tl shapes) d s)
+                  | CL _ => None
+                  end) es)
+       end in
+     match cur with
+     | None => false
+     | Some cur =>
+       existsb (fun g => bad_tf fuel rb d (snd g))
+               (group_items (merge_items style (prodZ (firstn levels (tl shapes))) d cur))
+     end)
+  end.
+
 Definition c09_region (c : c09_case) : Z :=
   match k_op c with
-  | OMerge depth _ _ => if Nat.leb (depth + 3) (out_depth c) then 1 else 0
+  | OMerge depth levels style =>
+    let rb := (out_depth c - depth - 1)%nat in
+    if existsb (bad_helper levels style (S (k_n c)) rb (skipn depth (k_shape c)) (k_d c))
+               (clevel depth (inj (k_tree c)))
+    then 1 else 0
   | _ => 0
   end.
 
